@@ -86,19 +86,40 @@ impl LineType {
     }
 }
 
+// The lines of a multi-line `rg --json` record as records of their own: consecutive line numbers,
+// the submatches cut at the line ends (offsets are bytes of the record's text).
+fn split_multiline_grep_line(grep_line: GrepLine) -> Vec<GrepLine> {
+    let submatches = grep_line.submatches.clone().unwrap_or_default();
+    let mut lines = Vec::new();
+    let mut start = 0;
+    for (i, text) in grep_line.code.split('\n').enumerate() {
+        let text = text.strip_suffix('\r').unwrap_or(text);
+        let end = start + text.len();
+        lines.push(GrepLine {
+            grep_type: grep_line.grep_type.clone(),
+            path: Cow::from(grep_line.path.to_string()),
+            line_number: grep_line.line_number.map(|n| n.saturating_add(i)),
+            line_type: grep_line.line_type.clone(),
+            code: Cow::from(text.to_string()),
+            submatches: Some(
+                submatches
+                    .iter()
+                    .filter(|(s, e)| *s < end && *e > start && s < e)
+                    .map(|(s, e)| ((*s).max(start) - start, (*e).min(end) - start))
+                    .collect(),
+            ),
+        });
+        start += grep_line.code[start..].find('\n').map_or(0, |k| k + 1);
+    }
+    lines
+}
+
 impl StateMachine<'_> {
     // If this is a line of grep output then render it accordingly.
     pub fn handle_grep_line(&mut self) -> std::io::Result<bool> {
         self.painter.emit()?;
 
-        let (previous_path, previous_line_type, previous_line, try_parse) = match &self.state {
-            State::Grep(_, line_type, path, line_number) => {
-                (Some(path.clone()), Some(line_type), line_number, true)
-            }
-            State::Unknown => (None, None, &None, true),
-            _ => (None, None, &None, false),
-        };
-        if !try_parse {
+        if !matches!(self.state, State::Grep(_, _, _, _) | State::Unknown) {
             return Ok(false);
         }
 
@@ -119,6 +140,29 @@ impl StateMachine<'_> {
         if matches!(grep_line.line_type, LineType::Ignore) {
             return Ok(true);
         }
+        // A record of `rg --json --multiline` may hold several lines of the file: each is shown
+        // as the line it is.
+        if grep_line.code.contains('\n') && grep_line.submatches.is_some() {
+            for line in split_multiline_grep_line(grep_line) {
+                self.emit_grep_line(line)?;
+            }
+            return Ok(true);
+        }
+        self.emit_grep_line(grep_line)?;
+        Ok(true)
+    }
+
+    fn emit_grep_line(&mut self, grep_line: GrepLine) -> std::io::Result<()> {
+        // (what was painted for the line before goes out before anything is written for this one)
+        self.painter.emit()?;
+        let (previous_path, previous_line_type, previous_line) = match &self.state {
+            State::Grep(_, line_type, path, line_number) => {
+                (Some(path.clone()), Some(line_type.clone()), *line_number)
+            }
+            _ => (None, None, None),
+        };
+        let previous_line_type = previous_line_type.as_ref();
+        let previous_line = &previous_line;
         let first_path = previous_path.is_none();
         let new_path = first_path || previous_path.as_deref() != Some(&grep_line.path);
         let line_number_jump =
@@ -151,8 +195,7 @@ impl StateMachine<'_> {
                 self.emit_classic_format_grep_line(grep_line)
             }
             _ => delta_unreachable("Impossible state while handling grep line."),
-        }?;
-        Ok(true)
+        }
     }
 
     // Emulate ripgrep output: each section of hits from the same path has a header line,
